@@ -30,36 +30,66 @@ def make_scratch(dst, src="/repo"):
     return dst
 
 
-def run_mutant(m, scratch):
-    path = os.path.join(scratch, m["file"])
-    if not os.path.exists(path):
-        return m, "skipped", "file missing"
-    orig = open(path).read()
-    cnt = orig.count(m["old"])
-    if cnt != m.get("count", 1):
-        return m, "skipped", "anchor text occurs %d times" % cnt
-    mutated = orig.replace(m["old"], m["new"])
-    try:
-        with open(path, "w") as fh:
-            fh.write(mutated)
-        p = subprocess.run([os.path.join(VERIF, "check"), m["prop"], "--root", scratch,
-                            "--tier", m.get("tier", "quick")],
+def _run_checks(m, scratch):
+    """run the check(s) of the variant's property (a list of properties is allowed); returns (worst return code, output)"""
+    props = m["prop"] if isinstance(m["prop"], list) else [m["prop"]]
+    rc, out = 0, ""
+    for pr in props:
+        p = subprocess.run([os.path.join(VERIF, "check"), pr, "--root", scratch, "--tier", m.get("tier", "quick")],
                            stdout=subprocess.PIPE, stderr=subprocess.STDOUT, text=True)
-        out = p.stdout
-    finally:
-        with open(path, "w") as fh:
-            fh.write(orig)
-    viol = [l for l in out.splitlines() if l.startswith("  ") or l.startswith("VIOLATION")]
+        out += p.stdout
+        if p.returncode == 1 or (p.returncode == 2 and rc == 0):
+            rc = p.returncode if rc != 1 else 1
+    return rc, out
+
+
+def run_mutant(m, scratch):
+    if m.get("patch"):
+        # a unified diff (independent sub-agents deliver behaviour-preserving refactorings in this form)
+        pf = os.path.join(VERIF, m["patch"])
+        if not os.path.exists(pf):
+            return m, "skipped", "patch file missing"
+        ap = subprocess.run(["patch", "-p1", "-s", "-f", "-d", scratch, "-i", pf], stdout=subprocess.PIPE, stderr=subprocess.STDOUT, text=True)
+        if ap.returncode != 0:
+            subprocess.run(["patch", "-p1", "-s", "-f", "-R", "-d", scratch, "-i", pf], stdout=subprocess.PIPE, stderr=subprocess.STDOUT)
+            # restore from /repo to be safe
+            make_scratch(scratch)
+            return m, "skipped", "patch does not apply: " + ap.stdout[-200:]
+        try:
+            rc, out = _run_checks(m, scratch)
+        finally:
+            rv = subprocess.run(["patch", "-p1", "-s", "-f", "-R", "-d", scratch, "-i", pf], stdout=subprocess.PIPE, stderr=subprocess.STDOUT)
+            if rv.returncode != 0:
+                make_scratch(scratch)
+            for junk in ("*.orig", "*.rej"):
+                subprocess.run("find %s -name '%s' -delete" % (scratch, junk), shell=True)
+    else:
+        path = os.path.join(scratch, m["file"])
+        if not os.path.exists(path):
+            return m, "skipped", "file missing"
+        orig = open(path).read()
+        cnt = orig.count(m["old"])
+        if cnt != m.get("count", 1):
+            return m, "skipped", "anchor text occurs %d times" % cnt
+        mutated = orig.replace(m["old"], m["new"])
+        try:
+            with open(path, "w") as fh:
+                fh.write(mutated)
+            rc, out = _run_checks(m, scratch)
+        finally:
+            with open(path, "w") as fh:
+                fh.write(orig)
+    viol = [l for l in out.splitlines() if l.startswith("  ") or l.startswith("VIOLATION") or l.startswith("ANALYSIS-BROKEN")]
     if m.get("expect") == "silent":
         # behaviour-preserving rewrite: the check must stay green
-        if p.returncode == 0:
+        if rc == 0:
             return m, "silent-ok", ""
         return m, "FALSE-ALARM", "\n".join(viol[:6]) or out[-400:]
-    if p.returncode == 2:
+    if rc == 2:
         return m, "broken", out[-800:]
-    if p.returncode == 1 and any(m["rule"] in l for l in viol):
+    if rc == 1 and any(m["rule"] in l for l in viol):
         return m, "caught", ""
-    if p.returncode == 1:
+    if rc == 1:
         return m, "caught-other", "\n".join(viol[:6])
     return m, "MISSED", out[-400:]
 
@@ -67,7 +97,8 @@ def run_mutant(m, scratch):
 def main(tier="quick", only=None, jobs=4, summary=None, tag="selftest"):
     muts = json.load(open(os.path.join(VERIF, "selftest", "mutants.json")))
     if only:
-        muts = [m for m in muts if m["prop"] in only or m["id"] in only]
+        muts = [m for m in muts if m["id"] in only or
+                any(pr in only for pr in (m["prop"] if isinstance(m["prop"], list) else [m["prop"]]))]
     base = os.environ.get("TMPDIR", "/tmp")
     roots = [os.path.join(base, "gsa-%s-%d" % (tag, i)) for i in range(jobs)]
     t0 = time.time()
@@ -92,7 +123,7 @@ def main(tier="quick", only=None, jobs=4, summary=None, tag="selftest"):
         shutil.rmtree(r, ignore_errors=True)
     bad = 0
     for m, st, info in sorted(results, key=lambda x: x[0]["id"]):
-        print("%-12s %-5s %-28s %s" % (st, m["prop"], m["id"], m["rule"]))
+        print("%-12s %-5s %-28s %s" % (st, m["prop"] if isinstance(m["prop"], str) else "+".join(m["prop"]), m["id"], m.get("rule", "")))
         if st in ("MISSED", "broken", "caught-other", "FALSE-ALARM"):
             print("     " + info.replace("\n", "\n     "))
         if st in ("MISSED", "broken", "FALSE-ALARM"):
